@@ -175,6 +175,11 @@ def check_isolation(run, case, front, order):
     run.count('interleaved_chunks', len(order))
     bad = []
     for i, res in enumerate(results):
+        if getattr(res, 'deadlock', False):
+            run.violation('isolation:%s/%s:deadlock' % (front, framing), dict(case, front=front, order=list(order)),
+                          'the handler threads of %d connections are all blocked for good (a lock of the server code that nobody releases): connection %d alone produces %s'
+                          % (len(results), i, solo[i].hex()[:60]))
+            return False
         if res.stuck:
             run.watchdogs += 1
             return None
@@ -220,6 +225,10 @@ def fine_one(run, case, framing, seed):
         ctx, model, blocks = SM.build(layout)
         results = FE.feed_multi('sync-tcp', framing, ctx, conns, [], fine_seed=seed)
         run.count('fine_grained_runs')
+        if any(getattr(res, 'deadlock', False) for res in results):
+            run.violation('fine-isolation:sync-tcp/%s:deadlock' % framing, dict(case, front='sync-tcp', fine_seed=seed),
+                          'the handler threads of %d connections are all blocked for good (a lock of the server code that nobody releases)' % len(results))
+            return
         if any(res.stuck for res in results):
             run.watchdogs += 1
             return
